@@ -353,7 +353,7 @@ class Verdict:
                 return
         path = None
         if replay_obj is not None:
-            d = os.path.join(VERIF, "replays", self.pid)
+            d = os.path.join(os.environ.get("VERIF_EVIDENCE_DIR") or VERIF, "replays", self.pid)
             os.makedirs(d, exist_ok=True)
             name = replay_name or ("v%d.json" % (len(self.violations) + 1))
             path = os.path.join(d, name)
@@ -383,8 +383,9 @@ def write_evidence(pid, tier, level, coverage, wall, violations=0, assumptions=N
         "wall_s": round(wall, 2),
         "violations": violations,
     }
-    os.makedirs(os.path.join(VERIF, "evidence"), exist_ok=True)
-    p = os.path.join(VERIF, "evidence", pid + ".json")
+    evdir = os.environ.get("VERIF_EVIDENCE_DIR") or os.path.join(VERIF, "evidence")
+    os.makedirs(evdir, exist_ok=True)
+    p = os.path.join(evdir, pid + ".json")
     tmp = p + ".tmp"
     with open(tmp, "w") as f:
         json.dump(ev, f, indent=1, sort_keys=True, default=str)
